@@ -742,7 +742,7 @@ func init() {
 	mc.Register(&mc.Prop{
 		ID:    "C11",
 		Level: "model_checking",
-		Rule: "subprocess-mode exploration of the goalign binary instrumented from the current tree: for each of the listed command scenarios (every documented command family, 1-3 flag sets each, on small nucleotide / protein / multi-Phylip / malformed-second-alignment inputs) x seeds {1,7} (randomised commands) x --threads {1,2,3,16} (threaded commands): the default execution, then EVERY execution within 2 (quick) / 3 (thorough) deviations from it (with 3 and 16 threads: 1 / 2) — a deviation is one scheduling decision other than the default (keep the running goroutine, else the lowest runnable id) at a channel/mutex/WaitGroup/spawn operation, one non-sorted iteration order at a ranged map, or one clock step at time.Now — must give exactly the bytes (stdout, exit status, every file written) of the default one-thread execution, end normally, and show no data race (vector clocks). " +
+		Rule: "subprocess-mode exploration of the goalign binary instrumented from the current tree: for each of the listed command scenarios (every documented command family, 1-3 flag sets each, on small nucleotide / protein / multi-Phylip / malformed-second-alignment inputs) x seeds {1,7} (randomised commands) x --threads {1,2,3,16} (threaded commands): the default execution, then EVERY execution within 2 (quick) / 3 (thorough) deviations from it when run with one thread, 2 deviations with 2 threads and 1 deviation with 3 and 16 threads (both tiers) — a deviation is one scheduling decision other than the default (keep the running goroutine, else the lowest runnable id) at a channel/mutex/WaitGroup/spawn operation, one non-sorted iteration order at a ranged map, or one clock step at time.Now — must give exactly the bytes (stdout, exit status, every file written) of the default one-thread execution, end normally, and show no data race (vector clocks). " +
 			"Reformat chains: ALL format sequences of <=3 conversions among fasta/phylip/nexus/clustal that return to the starting format, on 5 inputs (one with '?', '*' and lower case), must return the starting bytes; build distboot == build seqboot + compute distance for 4 models x 2 seeds. Each scenario also runs on the uninstrumented binary and on the instrumented binary in pass-through mode (must agree). states/transitions = nodes/edges of the choice trees; distinct_nontrivial = distinct (scenario, seed, threads, choice list) executions compared.",
 		Assumptions: []string{
 			"scheduling points only at synchronisation operations (channel, mutex, WaitGroup, go); data races are reported separately by vector clocks",
@@ -767,8 +767,11 @@ func init() {
 				for _, sd := range seeds {
 					for _, th := range threads {
 						r := c11Run{Scenario: sc.Name, Seed: sd, Threads: th, Bound: bound}
-						if th == 16 || th == 3 {
-							r.Bound = bound - 1 // 3 and 16 workers: one deviation less
+						switch {
+						case th == 16 || th == 3:
+							r.Bound = 1 // 3 and 16 workers: one deviation (both tiers)
+						case th == 2:
+							r.Bound = 2 // two workers: two deviations (both tiers); three do not complete in the budget
 						}
 						nsh := 1
 						if th >= 2 {
